@@ -61,10 +61,28 @@ Definition conv (rec : option (list string) -> bool -> list block) (s : nearsql)
     let sql := rec (ccols ci) (cforce ci || non_trivial) in
     match alias with Some a => [txt "("] ++ sql ++ [txt (") " +++ a)] | None => sql end.
 
+(* the repaired nearsqlbinary_to_sql_str_list_: does the operand's own text end in ORDER BY / LIMIT?
+   (a suffix line si with si.strip().upper().startswith(("ORDER BY", "LIMIT"))) *)
+Definition upper_char (c : ascii) : ascii :=
+  let n := nat_of_ascii c in if (Nat.leb 97 n && Nat.leb n 122) then ascii_of_nat (n - 32) else c.
+Fixpoint upper (s : string) : string := match s with EmptyString => EmptyString | String c r => String (upper_char c) (upper r) end.
+Definition starts_with (p s : string) : bool := match strip_prefix p s with Some _ => true | None => false end.
+Definition ordered_line (s : string) : bool :=
+  let u := upper (lstrip s) in starts_with "ORDER BY" u || starts_with "LIMIT" u.
+Definition node_sfx (q : nearsql) : list string :=
+  match q with
+  | NUnary _ _ _ _ sfx _ _ _ _ | NBinary _ _ _ _ _ _ _ sfx _ _ | NRaw0 _ _ sfx _ _ _ | NRaw1 _ _ _ _ sfx _ _ _ => sfx
+  | _ => []
+  end.
+Definition wrap_operand (fl : flags) (is_u : bool) (s : nearsql) (bs : list block) : list block :=
+  if f_union_wraps_ordered fl && is_u && negb (is_table s) && existsb ordered_line (node_sfx s)
+  then [txt "SELECT"; mk_b 1 (BText "*"); txt "FROM"; txt "("] ++ add_ind 1 bs ++ [txt (") " +++ qname s)]
+  else bs.
+
 Definition star_if_empty (l : list string) : list string := match l with [] => ["*"] | _ => l end.
 
 (* q.to_sql_str_list(columns=cols, force_sql=force) *)
-Fixpoint to_blocks (d : dialect) (q : nearsql) (cols : option (list string)) (force : bool) : list block :=
+Fixpoint to_blocks (fl : flags) (d : dialect) (q : nearsql) (cols : option (list string)) (force : bool) : list block :=
   match q with
   | NTable n tms =>
       let columns := match cols with Some c => c | None => match tms with Some t => map fst t | None => [] end end in
@@ -82,7 +100,7 @@ Fixpoint to_blocks (d : dialect) (q : nearsql) (cols : option (list string)) (fo
                       star_if_empty s2
                   end in
       [mk_b 0 (BSelect (anno_of an)); mk_b 1 (BTerms strs); txt "FROM"]
-      ++ add_ind 1 (conv (to_blocks d s) s ci (Some (qname s)))
+      ++ add_ind 1 (conv (to_blocks fl d s) s ci (Some (qname s)))
       ++ map txt sfx
   | NBinary n tms s1 c1 j s2 c2 sfx an _ =>
       let t := match tms with Some t => t | None => [] end in
@@ -90,9 +108,9 @@ Fixpoint to_blocks (d : dialect) (q : nearsql) (cols : option (list string)) (fo
       let strs := star_if_empty (map (enc_term d t) columns) in
       let u := is_union j in
       [mk_b 0 (BSelect (anno_of an)); mk_b 1 (BTerms strs); txt "FROM"; txt "("]
-      ++ add_ind 1 (conv (to_blocks d s1) s1 c1 (if u then None else cpub c1))
+      ++ add_ind 1 (wrap_operand fl u s1 (conv (to_blocks fl d s1) s1 c1 (if u then None else cpub c1)))
       ++ [txt j]
-      ++ add_ind 1 (conv (to_blocks d s2) s2 c2 (if u then None else cpub c2))
+      ++ add_ind 1 (wrap_operand fl u s2 (conv (to_blocks fl d s2) s2 c2 (if u then None else cpub c2)))
       ++ map txt sfx
       ++ [txt (if u && nonempty_str n then ") " +++ n else ")")]
   | NRaw0 _ p sfx an a _ =>
@@ -104,19 +122,19 @@ Fixpoint to_blocks (d : dialect) (q : nearsql) (cols : option (list string)) (fo
       (match an with Some x => [mk_b 0 (BComment x)] | None => [] end)
       ++ (if a then [txt "SELECT"] else [])
       ++ map (fun v => txt (" " +++ v)) p
-      ++ add_ind 1 (conv (to_blocks d s) s ci (Some (qname s)))
+      ++ add_ind 1 (conv (to_blocks fl d s) s ci (Some (qname s)))
       ++ map (fun v => txt (" " +++ v)) sfx
   end.
 
 (* the WITH list as to_sql writes it *)
-Fixpoint with_steps (d : dialect) (sq : wseq) : list block :=
+Fixpoint with_steps (fl : flags) (d : dialect) (sq : wseq) : list block :=
   match sq with
   | [] => []
   | (nm, (s, ci)) :: rest =>
       [mk_b 1 (BText (nm +++ " AS ("))]
-      ++ add_ind 2 (conv (to_blocks d s) s ci None)
+      ++ add_ind 2 (conv (to_blocks fl d s) s ci None)
       ++ [mk_b 1 (BText (if is_nil rest then ")" else ") ,"))]
-      ++ with_steps d rest
+      ++ with_steps fl d rest
   end.
 
 Definition header (d : dialect) : list block :=
@@ -132,10 +150,10 @@ Definition to_sql_blocks (d : dialect) (fl : flags) (o : opts) (q : nearsql) : l
       let oc := if use_cte_elim o && supports_with d && supports_cte_elim d then Some [] else None in
       let w := fst (to_with_form fl oc q) in
       match w_prev w with
-      | [] => to_blocks d q None true
-      | _ :: _ => [txt "WITH"] ++ with_steps d (w_prev w) ++ to_blocks d (w_last w) None true
+      | [] => to_blocks fl d q None true
+      | _ :: _ => [txt "WITH"] ++ with_steps fl d (w_prev w) ++ to_blocks fl d (w_last w) None true
       end
-    else to_blocks d q None true in
+    else to_blocks fl d q None true in
   header d ++ body.
 
 (* ------------------------------------------------------------------ lines of items (the layout options act here) *)
